@@ -717,6 +717,61 @@ theorem connect_cut (reg : Frame) (fs : List Frame) (k : Nat) (closed : Bool) (h
     by_cases hk0 : k = 0 <;> cases closed <;>
       simp [connect, await, takeFrame_nil, htf, termEv, hemp, hk, hk0, hne]
 
+/-- The List Identity exchange of `open_gateway` when the first `k` bytes of `idf :: fs` are (still) to come:
+it fails for every cut inside the List Identity reply, and otherwise leaves the rest to the operations. -/
+theorem identify_cut (idf : Frame) (fs : List Frame) (k : Nat) (closed : Bool) (hi : IsIdentity idf) :
+    identify { pend := [], buf := (stream (idf :: fs)).take k, evs := [termEv closed] } =
+      if (encodeFrame idf).length ≤ k then
+        .ok { pend := [], buf := (stream fs).take (k - (encodeFrame idf).length), evs := [termEv closed] }
+      else .error (if closed ∧ k ≠ 0 then .rxerror else .noidentity) := by
+  obtain ⟨hwf, hst, hcmd⟩ := hi
+  by_cases hk : (encodeFrame idf).length ≤ k
+  · unfold identify
+    dsimp only
+    rw [take_stream_ge idf fs k hk, await_nodata _ _ idf _ (takeFrame_encode idf hwf _)]
+    simp [hst, hcmd, hk]
+  · have htf : takeFrame ((stream (idf :: fs)).take k) = none := by
+      simp only [stream, List.flatMap_cons]
+      exact takeFrame_strict_prefix idf hwf _ k (by omega)
+    have hlen : ((stream (idf :: fs)).take k).length = k := by
+      simp only [stream, List.flatMap_cons, List.length_take, List.length_append]; omega
+    have hemp : ((stream (idf :: fs)).take k).isEmpty = decide (k = 0) := by
+      rw [Bool.eq_iff_iff, List.isEmpty_iff_length_eq_zero, hlen]; simp
+    have hne : encodeFrame idf ≠ [] := by
+      intro h; rw [h] at hk; simp at hk
+    by_cases hk0 : k = 0 <;> cases closed <;>
+      simp [identify, await, takeFrame_nil, htf, termEv, hemp, hk, hk0, hne]
+
+/-- **`open_gateway` on a reply stream cut at offset `k`** (proxy without `identity_default`): it fails — and no
+gateway is kept — for every cut inside the Register reply or inside the List Identity reply. -/
+theorem open_cut (reg idf : Frame) (fs : List Frame) (k : Nat) (closed : Bool) (hr : IsRegister reg)
+    (hi : IsIdentity idf) :
+    openGateway true [.data ((stream (reg :: idf :: fs)).take k), termEv closed] =
+      if (encodeFrame reg).length ≤ k then
+        if (encodeFrame idf).length ≤ k - (encodeFrame reg).length then
+          .ok { pend := [], buf := (stream fs).take (k - (encodeFrame reg).length - (encodeFrame idf).length),
+                evs := [termEv closed] }
+        else .error (.identify (if closed ∧ k - (encodeFrame reg).length ≠ 0 then .rxerror else .noidentity))
+      else .error (.connect (if k = 0 then (if closed then .noenip else .noresponse)
+                             else (if closed then .rxerror else .partialHeld))) := by
+  unfold openGateway
+  rw [connect_cut reg (idf :: fs) k closed hr]
+  by_cases hk : (encodeFrame reg).length ≤ k
+  · simp only [hk, if_true]
+    rw [identify_cut idf fs _ closed hi]
+    by_cases hk2 : (encodeFrame idf).length ≤ k - (encodeFrame reg).length <;> simp [hk2]
+  · simp only [hk, if_false]
+
+theorem open_cut_noident (reg : Frame) (fs : List Frame) (k : Nat) (closed : Bool) (hr : IsRegister reg) :
+    openGateway false [.data ((stream (reg :: fs)).take k), termEv closed] =
+      if (encodeFrame reg).length ≤ k then
+        .ok { pend := [], buf := (stream fs).take (k - (encodeFrame reg).length), evs := [termEv closed] }
+      else .error (.connect (if k = 0 then (if closed then .noenip else .noresponse)
+                             else (if closed then .rxerror else .partialHeld))) := by
+  unfold openGateway
+  rw [connect_cut reg fs k closed hr]
+  by_cases hk : (encodeFrame reg).length ≤ k <;> simp [hk]
+
 /-- `connector.__init__` sees only the bytes, not the blocks -/
 def ConnRel : Except ConnErr CSt → Except ConnErr CSt → Prop
   | .ok st, .ok st' => flat st = flat st'
